@@ -225,12 +225,14 @@ theorem closeTail_trace (cfg : Cfg) (s : St) (t : Tid) (c : Cont) : s.trace <+: 
   have e1 : s.trace <+: (s.emit .tclose).trace := List.prefix_append _ _
   simp only
   split
-  · exact e1.trans (runCont_trace _ t c)
+  · refine List.IsPrefix.trans ?_ (runCont_trace _ t c)
+    exact e1
   · have e2 : s.trace <+: ((s.emit .tclose).emit .cbEnter).trace := e1.trans (List.prefix_append _ _)
     split
     · exact e2
-    · refine e2.trans (List.IsPrefix.trans ?_ (runCont_trace _ t c))
-      exact List.prefix_append _ _
+    · refine List.IsPrefix.trans ?_ (runCont_trace _ t c)
+      show s.trace <+: ((s.emit .tclose).emit .cbEnter).trace ++ [.cbExit]
+      exact e2.trans (List.prefix_append _ _)
 
 theorem execClose_trace (cfg : Cfg) (t : Tid) (c : Cont) (l : List Obs) (pc : Nat) (s : St) (h : l <+: s.trace) :
     l <+: (execClose cfg s t c pc).trace := by
@@ -272,7 +274,9 @@ theorem prefixHoare (cfg : Cfg) (l : List Obs) :
           · exact h.trans (List.prefix_append _ _)
           · exact h
         · split
-          · exact (h.trans (List.prefix_append _ _)).trans (runCont_trace _ _ _)
+          · refine List.IsPrefix.trans ?_ (runCont_trace _ _ _)
+            show l <+: s.trace ++ [.cbExit]
+            exact h.trans (List.prefix_append _ _)
           · exact h
       · exact h
     · exact h
